@@ -349,7 +349,8 @@ bool Terminal::Impl::executeRunHistoryCmd(SessionContext *s, const Args &args)
                 is_index_valid = true;
             }
         } else {
-            if (s->history.size() >= static_cast<size_t>(-index)) {
+            //! 注意：index 可能为 INT_MIN，直接取负会溢出
+            if (s->history.size() >= static_cast<size_t>(-static_cast<long long>(index))) {
                 s->curr_input = s->history.at(s->history.size() + index);
                 is_index_valid = true;
             }
